@@ -93,6 +93,16 @@ _inp("C22", "exhaustive enumeration of corpora x all segment layouts x prefixes 
   "Every multiset of <=3 (quick) / <=4 (thorough) documents over 20 token shapes x every ordered partition into commits x 264 completion requests (8 prefixes, size 1..3, 11 fuzzy settings), plus many-segment corpora that cross the scan caps: options are indexed terms matching the prefix / edit distance rule, doc_freq exact, ordered by score then text, deterministic, identical across layouts.",
   "Trusted: recomputation; score values themselves are only observed (README does not pin them); deletions excluded as the property states.")
 
+_inp("C12", "exhaustive enumeration of corpora x ALL segment layouts x aggregation trees, against an independent aggregator and a cross-layout equality oracle",
+  "Every sequence of <=3-4 (quick) / <=5 (thorough) document shapes (keyword single/multi/missing, i64, f64, timestamp) x every composition into segments (+ deletion variants) x 3 queries x 110 (quick) / 138 (thorough) aggregation trees (every exact kind with 2-3 values per option, nested to depth 3): the response must equal an independent aggregator over the matched JSON documents and must equal the single-segment layout's response.",
+  "Trusted: the aggregator's reading of README (ES-style orderings, floor-based numeric histogram keys, population variance); fixed-interval date_histogram follows the pinned test's ceil semantics; options the docs leave open are not compared (listed in evidence).")
+_inp("C13", "exhaustive differential enumeration of worlds x queries x paging/sort/execution/flag variants",
+  "Worlds with >=4 matches x 6 queries x a request carrying 7 aggregation trees and 2 suggesters x 45 variants (3 executions x 3 sort plans x {limit n, cursor walks with page size 1,2,3}, return_hits off, explain / profile / rescore): aggregations and suggest must be identical to the reference variant.",
+  "Trusted: reference variant (first page, limit n, bm25), itself checked by C12/C22.")
+_inp("C30", "exhaustive enumeration of worlds x composite source lists x page sizes, paged walk against one unpaged request",
+  "C12 worlds x 3 queries x 8 source lists (terms, f64 / i64 histograms with interval 1 and 2, pairs) x page size 1..5: concatenating the pages obtained by feeding after_key back equals the buckets of one size-10000 request (keys, order, counts, sub-aggregations); after_key absent exactly on the last page; the walk terminates.",
+  "Trusted: the unpaged response as reference (checked by C12); a start-up canary verifies the comparison rejects a corrupted bucket list.")
+
 NOT_YET = "check not built yet in this session (see DESIGN.md §3 for the planned engine); no verdict is claimed"
 NOT_APPLICABLE = {}
 
